@@ -309,7 +309,7 @@ func srvAlphabet(cfg *SrvCfg, full bool) []CSym {
 	ses := func(state, id string) CSym { return CSym{Kind: "session", State: state, ID: id, From: peerFrom} }
 	var a []CSym
 	a = append(a, ses("new", "none"), ses("new", "other"))
-	for _, ch := range [][2]string{{"none", "none"}, {"none", "tls"}, {"gzip", "none"}, {"", ""}, {"none", "bogus"}} {
+	for _, ch := range [][2]string{{"none", "none"}, {"none", "tls"}, {"gzip", "none"}, {"", ""}, {"none", "bogus"}, {"none", ""}, {"", "none"}, {"", "tls"}} {
 		s := ses("negotiating", "sid")
 		s.Comp, s.Enc = ch[0], ch[1]
 		if ch[1] == "tls" {
